@@ -237,6 +237,7 @@ def register_engines(reg):
     k = reg.contract("_marker_relation:MarkerRelation.reapply", properties=("C15", "C14", "C03"), self_classes=("MarkerRelation", "Transfer"))
     k.req("locked-nodes-are-never-rebuilt", lambda c: B(smt.typ(c.self.z) != cid(c, "Materialization")))
     k.req("not-a-select-marker", lambda c: B(smt.typ(c.self.z) != cid(c, "Select")))
+    k.req("a-carried-payload-holds-the-new-targets-rows", lambda c: B(z3.Or(c.payload.z == smt.NONE, V.content(c.payload.z) == V.rows(c.target.z))))
     k.req("transfer-still-changes-engine", lambda c: B(z3.Implies(smt.typ(c.self.z) == cid(c, "Transfer"), A(c, "Transfer", "destination")(c.self.z) != eng(c, c.target.z))))
     k.ens("unchanged-arguments-return-the-marker-itself",
           lambda c: B(z3.Implies(z3.And(c.target.z == A(c, "MarkerRelation", "target")(c.self.z), c.payload.z == c.attr(c.self, "payload", old=True).z), c.result.z == c.self.z)))
